@@ -80,3 +80,16 @@ Example C02_example_sort :
   sorted_map_keys [("b", 1); ("a", 2); ("c", 3)] = ["a"; "b"; "c"]
   /\ sorted_map_keys [("c", 3); ("a", 2); ("b", 1)] = ["a"; "b"; "c"].
 Proof. vm_compute. split; reflexivity. Qed.
+
+(** "... and does not depend on the time of the run": the generator reads nothing but its arguments and the build
+    information (Proofs/AmbientOk.v proves it of the call sites regenerated from the source on every run); for such a
+    generator two runs of one binary observe the same ambient values, so the output is the same function value. *)
+Theorem C02_output_independent_of_the_run : forall (D C O : Type) (gen : D -> C -> list nat -> O) (reads : list ambient) d c e1 e2,
+  forallb stable reads = true -> same_binary e1 e2 -> gen d c (observe reads e1) = gen d c (observe reads e2).
+Proof. intros D C O. exact (@output_independent_of_the_run D C O). Qed.
+Print Assumptions C02_output_independent_of_the_run.
+
+Theorem C02_clock_read_refuted :
+  exists e1 e2, same_binary e1 e2 /\ observe [BuildInfo; Clock] e1 <> observe [BuildInfo; Clock] e2.
+Proof. exact clock_read_refuted. Qed.
+Print Assumptions C02_clock_read_refuted.
